@@ -468,6 +468,11 @@ func (fv *FuncVC) resolveSourceName(env *SpecEnv, name string) (Val, bool) {
 				return fv.get(fr, phi), true
 			}
 		}
+		// the loop was written `for i := 0; i < n; i++` instead of `for i := range s`: the hidden range index ("elements
+		// [0,$i] are done") is then i - 1 for the one counter of the loop that starts at 0 and goes up by one per iteration
+		if v, ok := fv.indexLoopCounter(fr, li); ok {
+			return v, true
+		}
 		engineErr("loop %d has no range index", li.ordinal)
 	}
 	// header phis of the enclosing loops (innermost first), by source name
@@ -1735,4 +1740,55 @@ func (fv *FuncVC) boundLoadFacts(v Val, t types.Type, st *State, a *Addr) {
 	}
 	fv.closureDone[h+"|"+st.cnt] = true
 	fv.ctx.axioms = append(fv.ctx.axioms, ax)
+}
+
+// indexLoopCounter: for a loop whose header has exactly one integer phi that enters with the constant 0 and is increased by
+// the constant 1 on every back edge, the value `phi - 1` (what the hidden index of the equivalent range loop would be)
+func (fv *FuncVC) indexLoopCounter(fr *Frame, li *loopInfo) (Val, bool) {
+	var found *ssa.Phi
+	h := li.header
+	for _, in := range h.Instrs {
+		phi, ok := in.(*ssa.Phi)
+		if !ok {
+			break
+		}
+		if !monotoneCounter(h, phi) {
+			continue
+		}
+		okShape := true
+		for i, p := range h.Preds {
+			e := phi.Edges[i]
+			if h.Dominates(p) {
+				inc, ok := e.(*ssa.BinOp)
+				if !ok {
+					okShape = false
+					break
+				}
+				c, ok := inc.Y.(*ssa.Const)
+				if !ok || c.Value == nil || c.Int64() != 1 {
+					okShape = false
+				}
+			} else {
+				c, ok := e.(*ssa.Const)
+				if !ok || c.Value == nil || c.Int64() != 0 {
+					okShape = false
+				}
+			}
+		}
+		if !okShape {
+			continue
+		}
+		if found != nil {
+			return Val{}, false // two candidates: ambiguous
+		}
+		found = phi
+	}
+	if found == nil {
+		return Val{}, false
+	}
+	v := fv.get(fr, found)
+	if len(v.C) != 1 {
+		return Val{}, false
+	}
+	return Val{T: v.T, C: []string{simplifySub(v.C[0], "1")}}, true
 }
